@@ -190,7 +190,8 @@ fn main() {
         tokio::time::sleep(Duration::from_millis(10)).await;
         // pre-filled directory kinds x burst sequences
         let prefill: Vec<Vec<&str>> = vec![vec![], vec!["1.json"], vec!["1.json", "2.json"], vec!["1.json", "2.json", "3.json"], vec!["1.json", "2.tmp"], vec!["1.json", "2.tmp", "3.tmp"], vec!["1.json", "2.json", "leftover.tmp"], vec!["a.tmp", "b.tmp", "c.tmp", "d.tmp"]];
-        let bursts = [0usize, 1, cap - 1, cap, cap + 1];
+        // small bursts around the file cap, and bursts far above what one file used to take (the queue holds 1000 events)
+        let bursts: Vec<usize> = if thorough { vec![0usize, 1, cap - 1, cap, cap + 1, 101, 650, 1001] } else { vec![0usize, 1, cap, cap + 1, 250, 1001] };
         let nt = if thorough { 4 } else { 3 };
         for pf in &prefill {
             for seq in vcommon::explore::sequences(bursts.len(), nt) {
@@ -219,7 +220,8 @@ fn main() {
                         );
                         break;
                     }
-                    if before < cap && bursts[*bi] > 0 && after.len() != before + 1 {
+                    if before < cap && bursts[*bi] > 0 && after.len() <= before {
+                        // (how many files a burst becomes is the implementation's business as long as the cap holds)
                         res.violation(
                             "event-dir:events-not-written-below-cap",
                             &format!("tick {}: {} events queued with {} files present (cap {}) but the directory now holds {}", ti + 1, bursts[*bi], before, cap, after.len()),
@@ -280,7 +282,7 @@ fn main() {
     res.cov("event_logger_histories", ev_hist);
     res.cov("rule_dump_histories", dump_hist);
     res.cov("exhaustive", true);
-    res.cov("rule", format!("rolling logger (size {S}, count {N}): BFS to depth {depth} over write(1 | fills to just below the limit | {S} | {}), write_many(2 x 10 | 2 x {S}), restart from 5 initial directories (empty; at the count limit with an almost full current file; current file above the size limit; foreign + sibling-logger files; empty current file), dedup on (file count, current size class, last op); event logger (cap {cap}, paused clock): every sequence of 3 (4) ticks with bursts of 0/1/cap-1/cap/cap+1 events from 8 pre-filled directories incl. leftover .tmp files; rule dumps (max {max}): 2*max+1 write_all calls from directories with 0, max-1, max, max+3 dumps", 3 * S));
+    res.cov("rule", format!("rolling logger (size {S}, count {N}): BFS to depth {depth} over write(1 | fills to just below the limit | {S} | {}), write_many(2 x 10 | 2 x {S}), restart from 5 initial directories (empty; at the count limit with an almost full current file; current file above the size limit; foreign + sibling-logger files; empty current file), dedup on (file count, current size class, last op); event logger (cap {cap}, paused clock): every sequence of 3 (4) ticks with bursts of 0/1/cap-1/cap/cap+1/101/650/1001 (quick: 0/1/cap/cap+1/250/1001) events from 8 pre-filled directories incl. leftover .tmp files; rule dumps (max {max}): 2*max+1 write_all calls from directories with 0, max-1, max, max+3 dumps", 3 * S));
     res.assume("initial directories above the configured count are outside the quantifier (earlier runs with the same settings never leave them); for those only non-increase is demanded");
     std::process::exit(res.finish());
 }
